@@ -37,6 +37,10 @@ elif mode == 'gensrc':          # gensrc IN OUT  (IN: "name includes...")
     body = ''.join('#include "%s"\n' % i.split(':')[0] for i in incs)
     expr = ' + '.join([i.split(':')[1] for i in incs] or ['0'])
     open(out, 'w').write(body + 'int %s_f(void) { return %s; }\n' % (name, expr))
+elif mode == 'genhdr':          # genhdr IN OUT  (IN: "MACRO VAL")
+    inp, out = sys.argv[2], sys.argv[3]
+    name, val = open(inp).read().split()[:2]
+    open(out, 'w').write('#pragma once\n#define %s %s\n' % (name, val))
 elif mode == 'value':           # value OUT VAL [INFILES...] -> text file with a number
     out, val = sys.argv[2], int(sys.argv[3])
     for p in sys.argv[4:]:
@@ -134,6 +138,10 @@ def gen_project(rng: random.Random, size: str = 'small') -> T.Dict[str, T.Any]:
                 e['gsrcs'].append(g['name'])
         if have_subp and rng.random() < 0.4:
             e['subp'] = True
+        if kind in ('static_library', 'shared_library'):
+            # a header of its own made by generator(): lives in the library's private directory
+            e['ghdr'] = rng.random() < 0.45
+            e['install'] = rng.random() < 0.3
         # objects taken over from an earlier static library instead of linking it
         cands = [p for p in libs if p['libkind'] == 'static_library' and p['name'] not in e['link_with'] and p['name'] not in e['link_whole']
                  and not p.get('extract_from')]
@@ -196,6 +204,13 @@ def gen_project(rng: random.Random, size: str = 'small') -> T.Dict[str, T.Any]:
             e2 = {'kind': 'exe', 'name': 'elast', 'uses': ['hr'], 'seg': r['seg'], 'hdr_via': 'sources', 'link_with': [], 'deps': [], 'pairs': [],
                   'pair_hdr_only': [], 'gsrcs': [], 'subp': False}
             ents.append(e2)
+    # consumers that include the generator()-made header of a library they are (transitively) linked with
+    for e in ents:
+        if e['kind'] not in ('lib', 'exe'):
+            continue
+        cands = [n for n in link_closure(e, {x['name']: x for x in ents}) if {x['name']: x for x in ents}[n].get('ghdr')]
+        if cands and rng.random() < 0.7:
+            e['ghdr_of'] = rng.sample(cands, min(len(cands), rng.randint(1, 2)))
     if big and rng.random() < 0.7:
         # spread layout: every library lives in its own subdirectory, consumers at the top level again
         segs = ['', 'sd1', 'sd2', 'sd3', 'sd4', '']
@@ -217,6 +232,28 @@ def gen_project(rng: random.Random, size: str = 'small') -> T.Dict[str, T.Any]:
         e['seg'] = cur
     return {'ents': ents, 'segs': segs, 'subp': have_subp, 'subp_val': rng.randint(1, 9),
             'default_library': rng.choice(['shared', 'static', 'both']), 'unity': rng.choice(['off', 'off', 'on'])}
+
+
+def link_closure(e: T.Dict[str, T.Any], byname: T.Dict[str, T.Dict[str, T.Any]]) -> T.List[str]:
+    """Libraries reachable through link_with / link_whole (also of declare_dependency objects), in discovery order."""
+    out: T.List[str] = []
+    todo = list(e.get('link_with', [])) + list(e.get('link_whole', []))
+    for d in e.get('deps', []):
+        if d in byname:
+            todo += byname[d].get('link_with', [])
+    while todo:
+        n = todo.pop(0)
+        if n in out or n not in byname:
+            continue
+        out.append(n)
+        todo += list(byname[n].get('link_with', [])) + list(byname[n].get('link_whole', []))
+    return out
+
+
+def ghdr_path(lib: T.Dict[str, T.Any], segs: T.List[str]) -> str:
+    d = segs[lib['seg']]
+    ext = 'a' if lib['libkind'] == 'static_library' else 'so'
+    return (d + '/' if d else '') + f"lib{lib['name']}.{ext}.p/{lib['name']}_pub.h"
 
 
 def render(spec: T.Dict[str, T.Any], sd: str) -> None:
@@ -258,6 +295,7 @@ def render(spec: T.Dict[str, T.Any], sd: str) -> None:
                         "py = find_program('python3')\n", "genpy = files('gen.py')\n", "datafile = files('data.txt')\n", "inc = include_directories('.')\n",
                         "gen = generator(py, output: '@BASENAME@.c', arguments: [genpy[0], 'gensrc', '@INPUT@', '@OUTPUT@'])\n"
                         if False else "gen = generator(py, output: '@BASENAME@.c', arguments: ['@SOURCE_ROOT@/gen.py', 'gensrc', '@INPUT@', '@OUTPUT@'], depends: [])\n"]
+    top.append("genh = generator(py, output: '@BASENAME@.h', arguments: ['@SOURCE_ROOT@/gen.py', 'genhdr', '@INPUT@', '@OUTPUT@'])\n")
     if spec.get('subp'):
         top.append("subp_dep = subproject('subp').get_variable('subp_dep')\n")
 
@@ -288,6 +326,15 @@ def render(spec: T.Dict[str, T.Any], sd: str) -> None:
             for l in byname[d]['link_with']:
                 lines.append(f'int {l}_f(void);')
                 terms.append(f'{l}_f()')
+        if e.get('ghdr'):
+            lines.append(f'#include "{e["name"]}_pub.h"')
+            terms.append(f'{e["name"].upper()}_PUB')
+        reach = link_closure(e, byname)
+        for l in e.get('ghdr_of', []):
+            # (only while the library is still linked: scenario minimisation removes links)
+            if l in reach and byname[l].get('ghdr') and byname[l]['libkind'] in ('static_library', 'shared_library'):
+                lines.append(f'#include "{ghdr_path(byname[l], segs)}"')
+                terms.append(f'{l.upper()}_PUB')
         if e.get('subp'):
             lines.append('#include "subp_gen.h"')
             lines.append('int subp_f(void);')
@@ -367,6 +414,12 @@ def render(spec: T.Dict[str, T.Any], sd: str) -> None:
                 with open(os.path.join(srcdir, f"{e['gtool_src']}.tpl2"), 'w') as f:
                     f.write(f"int {e['gtool_src']}_f(void) {{ return 4; }}\n")
                 srcs.append(f"gen2.process('{e['gtool_src']}.tpl2')")
+            if e.get('ghdr'):
+                with open(os.path.join(srcdir, f'{n}_pub.hin'), 'w') as f:
+                    f.write(f'{n.upper()}_PUB {3 + len(n)}\n')
+                srcs.append(f"genh.process('{n}_pub.hin')")
+            if e.get('install'):
+                kw.append('install: true')
             if e.get('link_with'):
                 kw.append('link_with: [' + ', '.join(e['link_with']) + ']')
             if e.get('link_whole'):
